@@ -121,27 +121,42 @@ def _bounded(modname):
 
 _add(PropertySpec(
     'C11', 'proof',
+    functions=['ampycloud.utils.utils.adjust_nested_dict', 'ampycloud.data.AbstractChunk._setup_prms'],
     extras=[_fs.c11], bounded=_bounded('c11'),
-    explanation=('Frame obligations over inferred effect summaries of the real code (modular: callee summaries at call sites): neither the '
+    explanation=('PROVED (P, tree dialect, see C12): adjust_nested_dict writes only the object given as its first argument (post '
+                 'the_assignment_dict_is_not_written); _setup_prms returns a fresh object that is not linked to the global, leaves the '
+                 'global neither rebound nor changed and the per-call dictionary untouched.  PROVED (F): frame obligations over inferred effect summaries of the real code (modular: callee summaries at call sites): neither the '
                  'constructor, run(), metar(), any stage, metar_msg(), the input checker nor the MSA clean-up writes the caller\'s frame, the '
                  'caller\'s dictionary or a module-level object; adjust_nested_dict never writes its second argument; the value returned by '
                  '_setup_prms shares no object with the global parameters (deep copy), so neither direction of the snapshot claim can fail; '
                  '_data is a private copy; no method other than the constructor writes the parameter snapshot.  A bounded native run '
                  '(labelled B) accompanies the frames and supplies the failing input when an obligation is refuted.'),
-    assumptions=[A_FRAME, 'noted, not a violation: leaf objects of the caller\'s dictionary are aliased into chunk.prms; ampycloud never writes them (obligation prms_snapshot_not_written)'],
+    assumptions=[A_FRAME, 'A-TREE / copy.deepcopy contract (see C12)', 'noted, not a violation: leaf objects of the caller\'s dictionary are aliased into chunk.prms; ampycloud never writes them (obligation prms_snapshot_not_written)'],
 ))
 
 _add(PropertySpec(
     'C12', 'other',
+    functions=['ampycloud.utils.utils.adjust_nested_dict', 'ampycloud.data.AbstractChunk._setup_prms', 'ampycloud.core.reset_prms'],
     extras=[_fs.c12], bounded=_bounded('c12'),
-    explanation=('PROVED (F): dynamic.AMPYCLOUD_PRMS is read directly only by _setup_prms, set_prms, reset_prms and the plotting-style '
-                 'code; no processing step reaches it even through callees; the constructor takes its snapshot through _setup_prms; '
-                 'set_prms merges into the global through the same adjust_nested_dict; reset_prms rebinds from a fresh read of the '
-                 'packaged YAML and stores nothing but fresh defaults.  BOUNDED (B): that the three routes give identical results, that '
-                 'unknown keys warn without adding keys, that only named keys change and that reset restores the defaults are checked '
-                 'natively on a scene grammar x nested parameter assignments (adjust_nested_dict is not yet under a full-mode contract).'),
-    assumptions=[A_FRAME, 'ruamel.yaml load returns the nested dict the file denotes'],
-    not_decided=['functional correctness of adjust_nested_dict for all nested dictionaries (bounded only)'],
+    explanation=('PROVED (P, tree dialect: parameter values as mathematical finite maps over string keys, dict objects as holders with '
+                 'write-through to their parent; universals over keys instantiated at the keys on the path): adjust_nested_dict (real '
+                 'AST, recursion by its own contract with a decreasing nesting depth, loop invariant over the processed keys) updates the '
+                 'object it is given in place and returns it; the new value f satisfies IsAdj(f, old, new) -- no key added or removed, '
+                 'every named known key with a plain value overridden, every named known nested dict adjusted recursively, everything '
+                 'else untouched; an unknown key gives exactly one AmpycloudWarning and no write; the assignment dict is not written.  '
+                 '_setup_prms returns a fresh object, not linked to the global, whose value is the global adjusted by the per-call dict '
+                 '(or a copy when None); the global is neither rebound nor changed.  reset_prms: None rebinds the global to a fresh '
+                 'defaults object; a name / a list of names (any length, repetitions) sets exactly the named top-level keys to the '
+                 'packaged values and leaves the others untouched, whatever the global held before (nested in-place edits included); '
+                 'AmpycloudError exactly when a name is not a packaged parameter.  PROVED (F): dynamic.AMPYCLOUD_PRMS is read directly '
+                 'only by _setup_prms, set_prms, reset_prms and the plotting-style code; no processing step reaches it even through '
+                 'callees; the constructor takes its snapshot through _setup_prms; set_prms merges into the global through the same '
+                 'adjust_nested_dict.  BOUNDED (B): identical *results of a run* through the three routes, the YAML route of set_prms '
+                 '(path handling, ruamel) and the library assumptions above are checked natively on a scene grammar x nested assignments.'),
+    assumptions=[A_FRAME, 'ruamel.yaml load returns the nested dict the file denotes, as a new object tree on every call (contract of get_default_prms)',
+                 'A-TREE: parameter dictionaries are finite trees (no dict object reachable through two paths, no cycles); copy.deepcopy returns an independent object of equal value',
+                 'valid assignment (the property\'s quantifier): Compat(ref, new) -- named known keys agree on dict / plain value, recursively'],
+    not_decided=['set_prms body (path checks, YAML load) beyond its frame contract (bounded only)', 'equality of whole runs through the three routes (bounded; follows from equal snapshots by A-DET)'],
 ))
 
 _add(PropertySpec(
